@@ -143,6 +143,20 @@ func scenarios() []scenario {
 		{"ik-revoked", func(e *env) { e.under("P"); e.warm(); e.revoke("ik"); time.Sleep(tR + tP) }},
 		{"sk-revoked", func(e *env) { e.under("P"); e.warm(); e.revoke("sk"); time.Sleep(2*tR + tP) }},
 		{"other-partition-warm", func(e *env) { e.producer("Q", 1); time.Sleep(3 * time.Second); e.under("P") }},
+		// the session's cached IK was revoked, another process has already rotated, and the session has just
+		// decrypted one of that process's records (its caches now hold both generations)
+		{"ik-revoked-other-rotated-then-decrypted", func(e *env) {
+			e.under("P")
+			e.warm()
+			e.revoke("ik")
+			time.Sleep(tR + tP)
+			e.producer("P", 1)
+			last := e.priors[len(e.priors)-1]
+			if _, err := e.s.Decrypt(context.Background(), *world.CopyDRR(last.drr)); err != nil {
+				panic("prep decrypt failed: " + err.Error())
+			}
+			time.Sleep(time.Second)
+		}},
 	}
 }
 
@@ -268,6 +282,10 @@ type result struct {
 // secretImpl selects the secure-memory implementation behind the ledger for the executions that follow.
 var secretImpl = "memguard"
 
+// execBackend / execSuffix select the metastore back end (world.Backends) and the region suffix it advertises for
+// the executions that follow.
+var execBackend, execSuffix = "memory", ""
+
 var journalPath = os.Getenv("VERIF_JOURNAL")
 
 func journal(s string) {
@@ -294,7 +312,8 @@ func (e *env) freshDecrypt(part string, drr *appencryption.DataRowRecord) ([]byt
 
 // execute runs one (scenario, config, op, fault plan) case on a fresh world. It must be called inside a bubble.
 func execute(sc scenario, cfgName, op string, fs []fault) (res result) {
-	e := &env{w: world.New(secretImpl), cfg: cfgOf(cfgName)}
+	e := &env{w: world.NewOn(secretImpl, execBackend), cfg: cfgOf(cfgName)}
+	e.w.Suffix = execSuffix
 	defer e.w.Close()
 	// secrets whose reference was taken by the "parent SK re-resolved" step of intermediateKeyFromEKR
 	reresolved := map[string]bool{}
